@@ -86,6 +86,7 @@ namespace occa {
       bool kernelIsValid(functionDeclStatement &kernelSmnt) {
         return (
           kernelHasValidReturnType(kernelSmnt)
+          && kernelHasNamedArguments(kernelSmnt)
           && kernelHasValidOklLoops(kernelSmnt)
           && kernelHasValidSharedAndExclusiveDeclarations(kernelSmnt)
           && kernelHasValidLoopBreakAndContinue(kernelSmnt)
@@ -106,6 +107,18 @@ namespace occa {
           return false;
         }
 
+        return true;
+      }
+
+      bool kernelHasNamedArguments(functionDeclStatement &kernelSmnt) {
+        // The kernel launchers pass the arguments along by name
+        function_t &func = kernelSmnt.function();
+        for (variable_t *arg : func.args) {
+          if (!arg || !arg->isNamed()) {
+            kernelSmnt.printError("[@kernel] arguments must be named");
+            return false;
+          }
+        }
         return true;
       }
 
